@@ -334,23 +334,61 @@ def cleanRel (t : Octets) : Bool :=
   noDotSegs tp && (tp.isEmpty || (!startsWith '/' tp && !startsWith ':' (Rfc3986.spanNot [':', '/', '?', '#'] t).2))
 
 /-- INPUT-side condition on (base, IRI): every suffix of the IRI that starts right after a '/' of the base path lying
-inside the common byte prefix is `cleanRel` -/
-def cleanSuffixes (base iri : Octets) : Bool :=
+inside the common byte prefix, at or after position `lo`, is `cleanRel` -/
+def cleanSuffixes (lo : Nat) (base iri : Octets) : Bool :=
   let pb := pathBegin (Rfc3986.split base)
-  (List.range (lcp base iri + 1)).all fun c => !(pb < c && base[c - 1]? == some '/') || cleanRel (iri.drop c)
+  (List.range (lcp base iri + 1)).all fun c =>
+    !(decide (lo ≤ c) && decide (pb < c) && base[c - 1]? == some '/') || cleanRel (iri.drop c)
 
-/-- the INPUT-side region of `rel_path_input_partial` (no reference to what `relativize` returns): the base has a
-scheme and a rooted path without dot segments, the common byte prefix ends strictly inside the base path, at or after
-`pseudoroot`, and `cleanSuffixes` holds. The driver prints it as `m.inpath`. -/
+/-- INPUT-side region (P) of `rel_input_partial` (no reference to what `relativize` returns): the base has a scheme and
+a path without dot segments, `pseudoroot` lies strictly inside the path (always so for rooted paths; for rootless ones
+this excludes '../' up to the very top), the common byte prefix ends inside the base path (strictly, or at its end
+with the IRI's path going on and the base having a query), at or after `pseudoroot`, and `cleanSuffixes` holds from
+`pseudoroot` on. The driver prints it as `m.inpath`. -/
 def pathInputCase (base : Octets) (n : Nat) (iri : Octets) : Bool :=
   let R := new base n
   let b := Rfc3986.split base
   let l := lcp base iri
-  b.scheme.isSome && startsSlash b.path && noDotSegs b.path && decide (l ≥ R.pseudoroot) && decide (l < R.path_end) &&
-    cleanSuffixes base iri
+  b.scheme.isSome && noDotSegs b.path && decide (R.pseudoroot > pathBegin b) && decide (l ≥ R.pseudoroot) &&
+    decide (l ≤ R.path_end) && decide (l < R.query_end) &&
+    (decide (l < R.path_end) || (decide (iri.length ≠ R.path_end) && !startsQH (iri.drop R.path_end))) &&
+    cleanSuffixes R.pseudoroot base iri
+
+/-- INPUT-side region (X): a query-less directory base (path ending in '/', no dot segments) that the IRI extends by a
+clean, non-empty relative path -/
+def extInputCase (base : Octets) (n : Nat) (iri : Octets) : Bool :=
+  let R := new base n
+  let b := Rfc3986.split base
+  let t := iri.drop R.query_end
+  b.scheme.isSome && noDotSegs b.path && b.query.isNone && b.path.getLast? == some '/' &&
+    decide (lcp base iri ≥ R.query_end) && cleanRel t && !t.isEmpty && !startsQH t
+
+/-- INPUT-side region (S): same document - the IRI has the scheme, authority and path of the base - and the query is
+the base's, or the base has none, or the IRI has one that does not extend the base's -/
+def sameDocInputCase (base : Octets) (n : Nat) (iri : Octets) : Bool :=
+  let R := new base n
+  let b := Rfc3986.split base
+  let i := Rfc3986.split iri
+  b.scheme.isSome && i.scheme == b.scheme && i.authority == b.authority && i.path == b.path &&
+    (i.query == b.query || b.query.isNone || (i.query.isSome && decide (lcp base iri < R.query_end)))
+
+/-- INPUT-side region (E): empty base path (authority not ending in a multi-byte character), IRI continuing after the
+authority with an absolute path ("/…", not "//…") free of dot segments -/
+def emptyPathInputCase (base : Octets) (n : Nat) (iri : Octets) : Bool :=
+  let R := new base n
+  let b := Rfc3986.split base
+  let l := lcp base iri
+  let t := iri.drop (pathBegin b)
+  b.scheme.isSome && b.path.isEmpty && !authEndsMultibyteNoPath base && decide (l ≥ pathBegin b) &&
+    ((decide (l ≥ R.query_end) && b.query.isNone) || (decide (l < R.query_end) && decide (l ≤ R.path_end))) &&
+    startsWith '/' t && !startsWith '/' (t.drop 1) && noDotSegs ((Rfc3986.spanNot ['?', '#'] t).1.drop 1)
+
+/-- the union of the input-side regions (`m.inreg` in the driver) -/
+def inputCase (base : Octets) (n : Nat) (iri : Octets) : Bool :=
+  sameDocInputCase base n iri || pathInputCase base n iri || extInputCase base n iri || emptyPathInputCase base n iri
 
 /-- octets of a string / string of octets (driver) -/
-def ofUtf8 (s : String) : Octets := s.toUTF8.toList.map (fun b => Char.ofNat b.toNat)
+def ofUtf8 (s : String) : Octets := s.toUTF8.data.toList.map (fun b => Char.ofNat b.toNat)
 def toBytes (o : Octets) : ByteArray := ByteArray.mk (o.map (fun c => UInt8.ofNat c.toNat)).toArray
 
 end SophiaModel.Relativize
